@@ -21,7 +21,7 @@ TRUSTED = [
     'inverse / factor workers are obtained by constructing a public GPTNeoXAssignment with the same arguments (its correctness is C12)',
     'factors held by a rank are read through the public KFACBaseLayer.state_dict() of the layer objects found by a reflective walk',
 ]
-THEOREMS = ['gathered_state_complete', 'gathered_state_sound', 'dir_one_file_per_layer', 'load_restores_on_factor_workers', 'recompute_on_factor_workers', 'neox_resume_restores_m1', 'neox_rollback_restores_m1']
+THEOREMS = ['gathered_state_complete', 'gathered_state_sound', 'dir_one_file_per_layer', 'load_restores_on_factor_workers', 'recompute_on_factor_workers', 'neox_resume_restores_m1', 'neox_rollback_restores_m1', 'dir_save_complete_when_returned']
 NOTES = ('Resume equivalence is claimed for model-parallel degree 1; for M > 1 the replicated factor is not restored on ranks that are not '
          'factor workers (known finding D7, Example neox_resume_refuted).')
 
@@ -99,8 +99,8 @@ def rollback_case(rng, tier, seed, k):
            'damping': 0.5, 'factor_decay': rng.choice([0.5, 0.75]), 'lr': 1.0, 'kl_clip': None, 'allreduce_bucket_cap_mb': rng.choice([0.0, 25.0]),
            'factor_update_steps': 1, 'inv_update_steps': ius, 'accumulation_steps': 1}
     pre = rng.choice([s for s in range(1, 2 * ius) if s % ius != 0])
+    dirmode = rng.random() < 0.4
     extra, post = rng.randint(1, 3), rng.randint(1, 2)
-    dirmode = rng.random() < 0.3
     tmp = None
     if dirmode:
         tmp = tempfile.mkdtemp(prefix='kv_c18_')
@@ -120,6 +120,23 @@ def rollback_case(rng, tier, seed, k):
                 if not wa.results[r][-1]['unchanged']:
                     probs.append(f'rank {r}: the state object passed to load_state_dict was changed by the training that followed '
                                  f'(it no longer holds the factors of the step it was saved at)')
+            if dirmode and D > 1:
+                # a second save into the same directory, then a load AT ONCE on a rank that runs ahead: once state_dict() has returned on a
+                # rank every layer file of THIS save exists (file I/O is a scheduling point of the simulated world), so every layer comes back
+                hist_c = [['train', 1]] * pre + [['save']] + [['train', 1]] * extra + [['save'], ['load_same', 1, 1]]
+                for pol in ('ahead', 'random'):
+                    MARKS.clear()
+                    wc = neoxrun.run(cfg, hist_c, seed=seed + k, policy=pol, observe=observe)
+                    MARKS.clear()
+                    if not wc.ok:
+                        probs.append(f'run failed (save, save, load at once; schedule {pol}): {wc.errors[:1]} {wc.deadlock} {dict(list(wc.exceptions.items())[:1])}'[:300])
+                        continue
+                    for r in range(D):
+                        sv, af = wc.results[r][-2]['extra'], wc.results[r][-1]['extra']
+                        for li, (s_, a_) in enumerate(zip(sv, af)):
+                            if a_['A'] is None or not (torch.equal(s_['A'], a_['A']) and torch.equal(s_['G'], a_['G'])):
+                                probs.append(f'rank {r} layer {li} (schedule {pol}): a load right after state_dict() returned did not restore the factors just saved '
+                                             f'(the layer file of this save did not exist yet?)')
             for j in range(post):
                 for r in range(D):
                     ga = wa.results[r][pre + 1 + extra + 1 + j]['after']; gb = wb.results[r][pre + 2 + j]['after']
